@@ -771,7 +771,11 @@ class Gen:
             ps = [("E", self.dy(0, 2))] if r.random() < 0.3 else []
             return ("set_axis", self.req(), ps)
         if op == "home":
-            return ("home", self.req() if r.random() < 0.6 else {}, [])
+            q = self.req() if r.random() < 0.6 else {}
+            if q and r.random() < 0.5:
+                # homing is usually asked for with zeros: G28 X0 homes X alone, whatever the number
+                q = {a: Fraction(0) for a in q}
+            return ("home", q, [])
         if op == "probe":
             return ("probe", self.mode(PROBE), self.req(1), self.params(("F",)))
         if op == "polyline":
